@@ -1,5 +1,7 @@
 """C02 - Segment metadata inheritance never changes what is read."""
 import io
+
+import numpy as np
 import itertools
 
 from hypothesis import strategies as st
@@ -74,6 +76,58 @@ def check(case, rec):
     if case.get('check_explicit', True):
         read_and_compare(rec, fs, ex, 'explicit')
     read_and_compare(rec, phys, ex, 'plan')
+    if case.get('trim') is not None and differs:
+        truncated_equivalence(rec, fs, phys, case['trim'])
+
+
+def truncated_equivalence(rec, fs, phys, trim):
+    """the same raw bytes missing at the end of the file (a writer that died): the compressed encoding must still read like
+    the explicit one - the metadata encodings describe the same layout, whatever amount of raw data follows"""
+    from nptdms import TdmsFile
+    from vf.observe import le_bytes, raw_ts_pairs
+    last = fs['segments'][-1]
+    if not last.get('nchunks') or any(t == 'str' for (_p, t, _n) in last.get('active') or []):
+        return
+    blobs = {}
+    for tag, spec in (('explicit', fs), ('plan', phys)):
+        data, _i, lay = encode_file(spec)
+        raw = lay[-1]['end'] - lay[-1]['data_pos']
+        if raw < 2:
+            return
+        blobs[tag] = data[:len(data) - (1 + trim % (raw - 1))]
+    rec.label('truncated_equivalence')
+
+    def snap(blob, mode):
+        opener = TdmsFile.read if mode == 'eager' else TdmsFile.open
+        tf = opener(io.BytesIO(blob), raw_timestamps=True)
+        try:
+            out = {}
+            for g in tf.groups():
+                for ch in g.channels():
+                    d = ch[:]
+                    if len(d) == 0:
+                        out[ch.path] = b''
+                    elif hasattr(d, 'dtype') and d.dtype.names:
+                        out[ch.path] = repr(raw_ts_pairs(d)).encode()
+                    elif np.asarray(d).dtype == object:
+                        out[ch.path] = repr(list(d)).encode()
+                    else:
+                        out[ch.path] = le_bytes(np.asarray(d))
+            return out
+        finally:
+            tf.close()
+    for mode in ('eager', 'lazy'):
+        try:
+            want = snap(blobs['explicit'], mode)
+        except Exception:       # noqa  reading the cut explicit file is C06's business
+            return
+        ok, got = rec.guard('truncated:plan:%s' % mode, lambda: snap(blobs['plan'], mode))
+        if ok and got != want:
+            bad = [p for p in want if got.get(p) != want[p]][:1] or ['(objects differ)']
+            rec.violation('truncated:plan:%s:values' % mode, 'with the same %d raw bytes missing at the end of the file, %s reads '
+                          '%d bytes of values in the compressed encoding but %d in the explicit one' % (
+                              len(encode_file(fs)[0]) - len(blobs['explicit']), bad[0],
+                              len(got.get(bad[0]) or b''), len(want.get(bad[0]) or b'')))
 
 
 # ---------------------------------------------------------------------------------------------
@@ -227,7 +281,7 @@ def history(draw, max_segments=7, max_channels=4):
                      'newlist': True, 'entries': entries, 'active': active, 'nchunks': nchunks, 'data': data})
         prev_act = act
     picks = draw(st.lists(st.integers(0, 10 ** 6), min_size=nseg, max_size=nseg))
-    return {'fs': {'segments': segs}, 'picks': picks}
+    return {'fs': {'segments': segs}, 'picks': picks, 'trim': draw(st.one_of(st.none(), st.integers(0, 10 ** 6)))}
 
 
 # ---------------------------------------------------------------------------------------------
